@@ -1488,8 +1488,30 @@ static void scnForEachThrow(Rng& rng) {
 // 16. containers and allocators, briefly (they have dedicated checks): only operations with a
 //    documented behaviour; ConcurrentVector::at() is the one documented throwing operation.
 // ================================================================================================
+// chunks of one SmallBufferAllocator size class allocated here and freed on a thread that does nothing else
+// and exits: the exiting thread's cache must go back to the central store, so the allocator's backing
+// memory stops growing after the first rounds
+template <size_t kBytes>
+static void sbaFreeOnlyThread(int m) {
+  constexpr int kRounds = 24, kWarm = 8;
+  size_t atWarm = 0;
+  for (int r = 0; r < kRounds; ++r) {
+    std::vector<char*> bufs;
+    for (int i = 0; i < m; ++i) { bufs.push_back(dispenso::allocSmallBuffer<kBytes>()); std::memset(bufs.back(), 0x5A, kBytes); }
+    std::thread freer([&] { for (char* b : bufs) dispenso::deallocSmallBuffer<kBytes>(b); });
+    freer.join();
+    if (r + 1 == kWarm) atWarm = dispenso::approxBytesAllocatedSmallBuffer<kBytes>();
+  }
+  size_t atEnd = dispenso::approxBytesAllocatedSmallBuffer<kBytes>();
+  // a leak loses (kRounds - kWarm) * m chunks; report when at least half of that appeared as new backing memory
+  // (and at least two slabs, so that one slab fetched late for an unrelated reason is never reported)
+  if (atEnd > atWarm && (atEnd - atWarm) * 2 >= (size_t)(kRounds - kWarm) * (size_t)m * kBytes && atEnd - atWarm >= 49152)
+    pfail("leak:containers: small buffers freed on a thread that then exits are never returned to the allocator",
+          fmt("class=%zu chunks/round=%d backing bytes after %d rounds %zu, after %d rounds %zu", kBytes, m, kWarm, atWarm, kRounds, atEnd));
+}
+
 static void scnContainers(Rng& rng) {
-  int n = 1 + (int)rng.below(200), part = (int)rng.below(5);
+  int n = 1 + (int)rng.below(200), part = (int)rng.below(7);
   shape(fmt("part%d/n%d", part, n > 40 ? 2 : n > 5 ? 1 : 0));
   switch (part) {
     case 0: {
@@ -1509,6 +1531,28 @@ static void scnContainers(Rng& rng) {
       long long s = 0;
       for (auto& a : moved) s += a.get();
       (void)s;
+    } break;
+    case 5: {
+      // assignment into a destination that already owns several buckets, then both sides destroyed
+      dispenso::ConcurrentVector<AT> dst, src, third;
+      for (int i = 0; i < n + 40; ++i) dst.emplace_back(i);
+      for (int i = 0; i < (int)rng.below(60); ++i) src.emplace_back(i);
+      for (int i = 0; i < (int)rng.below(300); ++i) third.emplace_back(i);
+      if (rng.below(2)) dst = std::move(src); else dst = src;
+      if (rng.below(2)) third = std::move(dst);
+      if (rng.below(2)) third.swap(src);
+      if (rng.below(3) == 0) third.shrink_to_fit();
+      long long s = 0;
+      for (auto& a : third) s += a.get();
+      (void)s;
+    } break;
+    case 6: {
+      // chunk counts stay below each size class's thread-local cache limit (192 / 112 / 64)
+      switch (rng.below(3)) {
+        case 0: sbaFreeOnlyThread<64>(60 + (int)rng.below(40)); break;
+        case 1: sbaFreeOnlyThread<128>(60 + (int)rng.below(40)); break;
+        default: sbaFreeOnlyThread<256>(24 + (int)rng.below(8)); break;
+      }
     } break;
     case 1: {
       dispenso::SmallVector<AT, 4> v;
@@ -1621,7 +1665,7 @@ static const Scenario kScenarios[] = {
     {"once_function", scnOnceFunction, 8},
     {"taskset_cancel", scnTaskSetCancel, 4},
     {"pool_shutdown", scnPoolShutdown, 4},
-    {"containers", scnContainers, 3},
+    {"containers", scnContainers, 5},
     {"for_each_throw", scnForEachThrow, 4},
 #endif
 #if C11_ON(1)
